@@ -83,7 +83,14 @@ type Ctx struct {
 	caseID string
 	op     int
 	fails  *[]Fail
+	annot  []string
 }
+
+// Annotate appends tokens to the op line as the model driver will see it: the driver receives
+// `<op line> | tok1 tok2 …`.  Use it for choices the real code makes that the model cannot
+// compute (random subsets, nonces, salts, signatures, recovered keys, wall-clock reads): the
+// model checks admissibility of the observed choice and continues with it (DESIGN §4).
+func (c *Ctx) Annotate(tokens ...string) { c.annot = append(c.annot, tokens...) }
 
 func (c *Ctx) Fail(clause, format string, a ...interface{}) {
 	*c.fails = append(*c.fails, Fail{Case: c.caseID, Clause: clause, Op: c.op, Msg: fmt.Sprintf(format, a...)})
@@ -187,9 +194,16 @@ func step(rn Runner, ctx *Ctx, op []string) (out string) {
 }
 
 // Exec runs all cases; writes the output stream (one line per input line) and returns fails.
-func Exec(p Prop, cs []Case, w io.Writer) []Fail {
+// If annot is non-nil it receives the case file as the model driver must read it: every op line
+// followed by ` | <tokens>` when the runner annotated that op (identical to the input otherwise).
+func Exec(p Prop, cs []Case, w io.Writer, annot io.Writer) []Fail {
 	bw := bufio.NewWriter(w)
 	defer bw.Flush()
+	var aw *bufio.Writer
+	if annot != nil {
+		aw = bufio.NewWriter(annot)
+		defer aw.Flush()
+	}
 	var fails []Fail
 	for _, c := range cs {
 		nt := 0
@@ -197,12 +211,23 @@ func Exec(p Prop, cs []Case, w io.Writer) []Fail {
 			nt = 1
 		}
 		fmt.Fprintf(bw, "#case %s nt=%d\n", c.ID, nt)
+		if aw != nil {
+			fmt.Fprintf(aw, "#case %s nt=%d\n", c.ID, nt)
+		}
 		rn := p.New()
 		ctx := &Ctx{caseID: c.ID, fails: &fails}
 		for i, op := range c.Ops {
 			ctx.op = i
+			ctx.annot = nil
 			out := step(rn, ctx, strings.Fields(op))
 			fmt.Fprintln(bw, out)
+			if aw != nil {
+				if len(ctx.annot) > 0 {
+					fmt.Fprintln(aw, op+" | "+strings.Join(ctx.annot, " "))
+				} else {
+					fmt.Fprintln(aw, op)
+				}
+			}
 		}
 		func() {
 			defer func() { recover() }()
